@@ -67,7 +67,7 @@ class Cleanup:
         fr = Frame(T=T, orders=orders, ca=ca, cb=cb, coa=coa, cob=cob, na=na, nb=nb)
         out = mod._cleanup_intermediate_integrals(T, orders, ca, coa, na, cb, cob, nb)
         fr.check(M, "cleanup", out)
-        M.true("cleanup/shape", tuple(out.shape) == (len(orders), Ma, len(ca), Mb, len(cb)), str(out.shape))
+        out = M.shaped("cleanup/shape", out, (len(orders), Ma, len(ca), Mb, len(cb)))
         sT, scoa, scob, sna, snb = map(M.to_spec, (T, coa, cob, na, nb))
         for d in range(len(orders)):
             for ma in range(Ma):
@@ -152,7 +152,7 @@ class NormPrim:
         norm = sh.norm_prim_cart
         fr.check(M, "norm_prim", norm)
         comps = cart_components(l)
-        M.true("norm_prim/shape", tuple(norm.shape) == (len(comps), K), str(norm.shape))
+        norm = M.shaped("norm_prim/shape", norm, (len(comps), K))
         M.true("norm_prim/components", [tuple(int(x) for x in r) for r in sh.angmom_components_cart] == comps,
                "documented default component order")
         sexps = M.to_spec(exps)
@@ -269,7 +269,7 @@ class OverlapBlock:
         out = ov.Overlap.construct_array_contraction(s1, s2)
         fr.check(M, "overlap_block", out)
         sa, sb = spec_of_shell(M, s1), spec_of_shell(M, s2)
-        M.true("overlap_block/shape", tuple(out.shape) == (sa.M, sa.L, sb.M, sb.L), str(out.shape))
+        out = M.shaped("overlap_block/shape", out, (sa.M, sa.L, sb.M, sb.L))
         spec = basisfn.overlap_block(M.SF, sa, sb)
         for idx, v in spec.items():
             M.eq("overlap_block/out" + tag(idx), out[idx], v)
